@@ -861,6 +861,14 @@ K("dt.level4_report", ["C04", "C05"], DT, "dt.rs", "level4_report_contract", "K-
               new="                if let Err(e) = self.is_valid() && false {\n                    return Err(TriangulationValidationReport {\n                        violations: vec![InvariantViolation {",
               desc="a Delaunay violation is not reported when the lower levels are clean"))
 
+for _d in range(0, 7):
+    K(f"bits.d{_d}", ["C14", "C17", "C19"], DT, "dt_bits.rs", f"bits_d{_d}", "K-full", [fn(DT, "hilbert_bits_per_coord"), fn(DT, "morton_bits_per_coord")],
+      tier="quick" if _d in (2, 5) else "thorough", timeout=600, tier_for={"C19": "thorough"},
+      obligations=(["hilbert-bits-d0"] if _d == 0 else ["hilbert-bits-precondition", "hilbert-bits-max"]) + (["morton-bits-unsupported"] if (_d < 2 or _d > 5) else ["morton-bits-precondition"]),
+      claim=f"D = {_d}: the bit depth the Hilbert / Morton orderings choose satisfies the precondition of the curve functions (1 <= bits <= 31, D*bits <= 128; Morton D*bits <= 64), None outside the supported dimensions",
+      mutant=dict(file=DT, old="    let bits_per_coord = (128_u32 / d_u32).min(31);", new="    let bits_per_coord = (128_u32 / d_u32).max(31);",
+                  desc="Hilbert bit depth chosen with max instead of min (index would overflow)") if _d == 5 else None)
+
 # ======================================================================================
 # Units that are written and attached on demand (`--unit ID`) but NOT part of any registered
 # command: they do not finish within 45 min here (or were never seen to finish).
